@@ -342,7 +342,11 @@ func (s vC05Stub) ServeDNS(ctx context.Context, ch *middleware.Chain) {
 		if opt := req.IsEdns0(); opt != nil {
 			var codes []string
 			for _, o := range opt.Option {
-				codes = append(codes, strconv.Itoa(int(o.Option())))
+				c := strconv.Itoa(int(o.Option()))
+				if e, ok := o.(*dns.EDNS0_SUBNET); ok {
+					c += fmt.Sprintf("[fam=%d %s/%d scope=%d]", e.Family, e.Address, e.SourceNetmask, e.SourceScope)
+				}
+				codes = append(codes, c)
 			}
 			line += fmt.Sprintf(" opt(size=%d do=%v ver=%d opts=%s)", opt.UDPSize(), opt.Do(), opt.Version(), strings.Join(codes, ","))
 		}
@@ -361,6 +365,29 @@ func (s vC05Stub) ServeDNS(ctx context.Context, ch *middleware.Chain) {
 			Subject: "nx1." + vC05Zone, Zone: vC05Zone, Kind: middleware.ValidatedNegativeProofNSEC, Aggressive: true,
 		})
 	}
+	// an authority that understands client subnet answers with a scope: /0 for names ending in 0,
+	// the source prefix for names ending in 1, a shorter one otherwise
+	if ropt := req.IsEdns0(); ropt != nil && resp.Rcode != dns.RcodeServerFailure {
+		for _, o := range ropt.Option {
+			if e, ok := o.(*dns.EDNS0_SUBNET); ok && e.Family != 0 {
+				scope := e.SourceNetmask / 2
+				first := strings.SplitN(strings.ToLower(req.Question[0].Name), ".", 2)[0]
+				if strings.HasSuffix(first, "0") {
+					scope = 0
+				} else if strings.HasSuffix(first, "1") {
+					scope = e.SourceNetmask
+				}
+				opt := resp.IsEdns0()
+				if opt == nil {
+					opt = &dns.OPT{Hdr: dns.RR_Header{Name: ".", Rrtype: dns.TypeOPT}}
+					opt.SetUDPSize(1232)
+					resp.Extra = append(resp.Extra, opt)
+				}
+				opt.Option = append(opt.Option, &dns.EDNS0_SUBNET{Code: dns.EDNS0SUBNET, Family: e.Family, SourceNetmask: e.SourceNetmask, SourceScope: scope, Address: e.Address})
+				break
+			}
+		}
+	}
 	_ = ch.Writer.WriteMsg(resp)
 	ch.Cancel()
 }
@@ -377,14 +404,15 @@ type vC05Toggles struct {
 	hosts       bool
 	emptyZones  bool
 	chaos       bool
+	ecs         int // 0 off, 1 enabled for every client, 2 enabled for 203.0.113.0/26 only
 	tcp         bool
 	inline      bool
 	minimalPipe bool
 }
 
 func (t vC05Toggles) String() string {
-	return fmt.Sprintf("nsid=%v crl=%d erl=%d prefetch=%v 8198=%d 9520=%d hosts=%v ez=%v chaos=%v tcp=%v inline=%v",
-		t.nsid, t.clientRate, t.entryRate, t.prefetch, t.rfc8198, t.rfc9520, t.hosts, t.emptyZones, t.chaos, t.tcp, t.inline)
+	return fmt.Sprintf("nsid=%v crl=%d erl=%d prefetch=%v 8198=%d 9520=%d hosts=%v ez=%v chaos=%v ecs=%d tcp=%v inline=%v",
+		t.nsid, t.clientRate, t.entryRate, t.prefetch, t.rfc8198, t.rfc9520, t.hosts, t.emptyZones, t.chaos, t.ecs, t.tcp, t.inline)
 }
 
 func vC05Config(t vC05Toggles, hostsPath string) *config.Config {
@@ -423,6 +451,13 @@ func vC05Config(t vC05Toggles, hostsPath string) *config.Config {
 		cfg.EmptyZones = []string{"10.in-addr.arpa.", "168.192.in-addr.arpa."}
 	}
 	cfg.Chaos = t.chaos
+	switch t.ecs {
+	case 1:
+		cfg.ECS.Enabled = true
+	case 2:
+		cfg.ECS.Enabled = true
+		cfg.ECS.ClientNetworks = []string{"203.0.113.0/26", "2001:db8:c05::/48"}
+	}
 	return cfg
 }
 
@@ -666,7 +701,10 @@ func vC05OnlyTTLDrift(a, b []string) bool {
 
 // ---------------------------------------------------------------- packet generators
 
-type vC05Gen struct{ r *rand.Rand }
+type vC05Gen struct {
+	r       *rand.Rand
+	ecsBias bool // the scenario forwards client subnet: send well-formed ECS options often
+}
 
 func (g *vC05Gen) pick(xs ...int) int { return xs[g.r.Intn(len(xs))] }
 func vC05Put16(b []byte, v int) []byte { return append(b, byte(v>>8), byte(v)) }
@@ -690,6 +728,7 @@ func vC05WireName(name string, g *vC05Gen) []byte {
 }
 
 type vC05Query struct {
+	prefix []byte // raw wire labels put in front of name
 	name   string
 	qtype  int
 	qclass int
@@ -716,6 +755,7 @@ func (q *vC05Query) pack(g *vC05Gen) []byte {
 		ar = 1
 	}
 	b = vC05Put16(b, ar)
+	b = append(b, q.prefix...)
 	b = append(b, vC05WireName(q.name, g)...)
 	b = vC05Put16(b, q.qtype)
 	b = vC05Put16(b, q.qclass)
@@ -759,7 +799,10 @@ func (g *vC05Gen) query(ip net.IP) *vC05Query {
 	case x < 90:
 		q.name = vC05Names[g.r.Intn(len(vC05Names))] + "." + vC05Zone
 	case x < 93:
-		q.name = g.pickS("1.0.0.10.in-addr.arpa.", "5.1.168.192.in-addr.arpa.", "10.in-addr.arpa.", "1.0.16.172.in-addr.arpa.")
+		q.name = g.pickS("1.0.0.10.in-addr.arpa.", "5.1.168.192.in-addr.arpa.", "10.in-addr.arpa.", "1.0.16.172.in-addr.arpa.",
+			"d.f.ip6.arpa.", "1.8.e.f.ip6.arpa.", "8.b.d.0.1.0.0.2.ip6.arpa.", "0.in-addr.arpa.", "7.254.169.in-addr.arpa.", "1.0.0.127.in-addr.arpa.",
+			"200.2.0.192.in-addr.arpa.", "9.113.0.203.in-addr.arpa.", "arpa.", "in-addr.arpa.",
+			"1.0.0.0.0.0.0.0.0.0.0.0.0.0.0.0.0.0.0.0.0.0.0.0.0.0.0.0.0.0.0.0.ip6.arpa.")
 		tags = append(tags, "as112")
 	case x < 95:
 		q.name = g.pickS("version.bind.", "hostname.bind.", "id.server.")
@@ -775,7 +818,51 @@ func (g *vC05Gen) query(ip net.IP) *vC05Query {
 	if q.qtype == 0 {
 		q.qtype = g.pick(1, 1, 1, 1, 1, 28, 28, 15, 16, 5, 46, 255, 43, 2, 6, 12, 65, 65000)
 		if strings.HasSuffix(q.name, "arpa.") {
-			q.qtype = g.pick(12, 12, 6, 2, 1)
+			q.qtype = g.pick(12, 12, 12, 6, 2, 1, 43, 255, 16)
+		}
+	}
+	// name shapes: extra labels in front of any name - deep (label-count boundaries of the
+	// byte-path name walkers), bytes that need escaping in presentation form, a 63-octet label,
+	// a name filled up to the 255-octet limit
+	if p := g.r.Intn(100); p < 12 || (strings.HasSuffix(q.name, "arpa.") && p < 45) {
+		room := 255 - len(vC05WireName(q.name, nil))
+		var pre []byte
+		switch g.r.Intn(6) {
+		case 0, 1:
+			k := g.pick(1, 2, 5, 10, 20, 30, 32, 33, 34, 35, 36, 40, 64, 100, 120, 126)
+			for i := 0; i < k && len(pre)+2 <= room; i++ {
+				pre = append(pre, 1, byte('a'+g.r.Intn(26)))
+			}
+			tags = append(tags, fmt.Sprintf("deep+%d", len(pre)/2))
+		case 2:
+			pre = append(pre, 2, 'l', 'b', 7, '_', 'd', 'n', 's', '-', 's', 'd', 4, '_', 'u', 'd', 'p')
+			tags = append(tags, "dns-sd")
+		case 3:
+			lab := []byte{byte(g.pick('.', '\\', ' ', '"', ';', '@', '$', '(', 0, 7, 127, 128, 255, 'A', 'Z')), 'x', byte(g.pick('.', '\\', 200, 'Q'))}
+			pre = append(pre, byte(len(lab)))
+			pre = append(pre, lab...)
+			tags = append(tags, "odd-bytes")
+		case 4:
+			pre = append(pre, 63)
+			for i := 0; i < 63; i++ {
+				pre = append(pre, byte('a'+i%26))
+			}
+			tags = append(tags, "label63")
+		default:
+			for len(pre)+2 <= room {
+				n := room - len(pre) - 1
+				if n > 63 {
+					n = 63
+				}
+				pre = append(pre, byte(n))
+				for i := 0; i < n; i++ {
+					pre = append(pre, byte('a'+g.r.Intn(26)))
+				}
+			}
+			tags = append(tags, "maxlen")
+		}
+		if len(pre) <= room {
+			q.prefix = pre
 		}
 	}
 	if g.r.Intn(25) == 0 {
@@ -822,6 +909,20 @@ func (g *vC05Gen) query(ip net.IP) *vC05Query {
 		if g.r.Intn(20) == 0 {
 			q.zbits = g.pick(0x4000, 0x0001, 0x7FFF)
 			tags = append(tags, "z-bits")
+		}
+		if g.ecsBias && g.r.Intn(100) < 35 {
+			fam, mask, addr := 1, g.pick(24, 24, 32, 16, 8, 0), []byte{192, 0, 2, 77}
+			if g.r.Intn(4) == 0 {
+				fam, mask, addr = 2, g.pick(56, 48, 64, 128, 32), []byte{0x20, 0x01, 0x0d, 0xb8, 0, 1, 2, 3, 4, 5, 6, 7, 8, 9, 10, 11}
+			}
+			if g.r.Intn(3) == 0 {
+				addr[1] ^= byte(1 + g.r.Intn(3)) // another subnet
+			}
+			d := vC05Put16(nil, fam)
+			d = append(d, byte(mask), byte(g.pick(0, 0, 0, 8)))
+			d = append(d, addr[:(mask+7)/8]...)
+			q.opts = append(q.opts, vC05Opt(8, d))
+			tags = append(tags, "ecs-ok")
 		}
 		for i, n := 0, g.pick(0, 0, 0, 1, 1, 2, 3); i < n; i++ {
 			switch y := g.r.Intn(100); {
@@ -1304,7 +1405,7 @@ func TestVerifC05Differential(t *testing.T) {
 	}
 
 	// ------------------------------------------------ phase 1: ingress verdicts
-	nIngress := n / 3
+	nIngress := n / 4
 	{
 		ws := vC05NewServer(vC05Toggles{minimalPipe: true}, hostsPath)
 		ms := vC05NewServer(vC05Toggles{minimalPipe: true}, hostsPath)
@@ -1460,6 +1561,53 @@ func TestVerifC05Differential(t *testing.T) {
 		pk("pos0", 1, 0x0100, false, true, 1232), sh(299), pk("pos0", 1, 0x0100, false, true, 1232), sh(2), pk("pos0", 1, 0x0100, false, true, 1232))
 	add2(vC05Toggles{}, pk("nx1", 1, 0x0100, true, true, 1232), pk("a.nx1", 1, 0x0100, true, true, 1232), sh(30), pk("a.nx1", 1, 0x0100, false, true, 1232), sh(40), pk("a.nx1", 1, 0x0100, false, true, 1232), pk("nxf0", 1, 0x0100, false, true, 1232),
 		pk("sf0", 1, 0x0100, false, true, 1232), pk("sf0", 1, 0x0100, false, true, 1232), sh(4), pk("sf0", 1, 0x0100, false, true, 1232), sh(10), pk("sf0", 1, 0x0100, false, true, 1232), pk("sf0", 1, 0x0100, false, true, 1232))
+	// client subnet forwarding: enabled for everybody / for an allow-list, clients reported in 16-byte
+	// (IPv4-mapped) and 4-byte form and IPv6, inside and outside the list; misses, hits, other subnets,
+	// the same names without the option
+	pko := func(name string, qt int, ip net.IP, opts ...[]byte) vC05Step {
+		q := &vC05Query{id: 3000 + g.r.Intn(1000), name: name + "." + vC05Zone, qtype: qt, qclass: 1, flags: 0x0100, opt: true, size: 1232, opts: opts}
+		return vC05Step{raw: q.pack(g), tag: fmt.Sprintf("scripted %s/%d from %s (%d-byte) opts=%d", q.name, qt, ip, len(ip), len(opts)), ip: ip}
+	}
+	ecs4 := func(a, b, c byte, mask int) []byte {
+		return vC05Opt(8, append([]byte{0, 1, byte(mask), 0}, []byte{a, b, c, 0}[:(mask+7)/8]...))
+	}
+	for _, mode := range []int{1, 2} {
+		for _, ip := range []net.IP{net.IPv4(203, 0, 113, 30), net.IPv4(203, 0, 113, 30).To4(), net.IPv4(203, 0, 113, 99), net.ParseIP("2001:db8:c05::30")} {
+			add2(vC05Toggles{ecs: mode}, pko("pos1", 1, ip, ecs4(192, 0, 2, 24)), pko("pos1", 1, ip, ecs4(192, 0, 2, 24)), pko("pos1", 1, ip, ecs4(192, 0, 3, 24)),
+				pko("pos1", 1, ip), pko("pos0", 1, ip, ecs4(192, 0, 2, 24)), pko("pos0", 1, ip), pko("pos2", 1, ip, ecs4(192, 0, 2, 32)), pko("pos2", 1, ip, ecs4(192, 0, 2, 16)),
+				pko("nx0", 1, ip, ecs4(192, 0, 2, 24)), pko("nx0", 1, ip), pko("sf0", 1, ip, ecs4(192, 0, 2, 24)), pko("sf0", 1, ip))
+		}
+	}
+	// cookies against the per-client limiter over UDP and TCP: first contact, the server cookie echoed,
+	// a stale / bare cookie afterwards, until the bucket is empty and beyond
+	for _, tcp := range []bool{false, true} {
+		for _, rate := range []int{3, 6} {
+			ip := net.IPv4(203, 0, 113, 45)
+			client := []byte{9, 8, 7, 6, 5, 4, 3, 2}
+			full, _ := hex.DecodeString(dnsutil.GenerateServerCookie(vC05Secret, ip.String(), hex.EncodeToString(client)))
+			stale := append(append([]byte{}, client...), make([]byte, 32)...)
+			bare, echo, old := vC05Opt(10, client), vC05Opt(10, full), vC05Opt(10, stale)
+			add2(vC05Toggles{clientRate: rate, tcp: tcp}, pko("pos0", 1, ip, bare), pko("pos0", 1, ip, echo), pko("pos0", 1, ip, bare), pko("pos0", 1, ip, old),
+				pko("pos0", 1, ip, echo), pko("pos0", 1, ip, bare), pko("pos0", 1, ip), pko("pos0", 1, ip, old), pko("pos0", 1, ip, bare), pko("pos0", 1, ip, echo), pko("pos0", 1, ip))
+		}
+	}
+	// reverse and special-use names of every depth on the byte-path name walkers (empty zones, hosts PTR)
+	deep := func(base string, k int, qt int) vC05Step {
+		q := &vC05Query{id: 4000 + k, name: base, qtype: qt, qclass: 1, flags: 0x0100, opt: true, size: 1232}
+		for i := 0; i < k; i++ {
+			q.prefix = append(q.prefix, 1, byte('a'+i%26))
+		}
+		return vC05Step{raw: q.pack(g), tag: fmt.Sprintf("scripted %d labels + %s /%d", k, base, qt), ip: net.IPv4(203, 0, 113, 46)}
+	}
+	for _, ez := range []bool{false, true} {
+		var steps []vC05Step
+		for _, base := range []string{"10.in-addr.arpa.", "8.b.d.0.1.0.0.2.ip6.arpa.", "1.0.0.0.0.0.0.0.0.0.0.0.0.0.0.0.0.0.0.0.0.0.0.0.0.0.0.0.0.0.0.0.ip6.arpa.", "pos0." + vC05Zone, "hosts0." + vC05Zone} {
+			for _, k := range []int{0, 1, 3, 29, 30, 31, 32, 33, 34, 60, 100} {
+				steps = append(steps, deep(base, k, g.pick(12, 12, 1, 43)))
+			}
+		}
+		add2(vC05Toggles{emptyZones: ez, hosts: true}, steps...)
+	}
 	nScripted := len(scriptedSteps)
 	for budget > 0 {
 		scen++
@@ -1471,6 +1619,7 @@ func TestVerifC05Differential(t *testing.T) {
 			hosts:      g.r.Intn(2) == 0,
 			emptyZones: g.r.Intn(3) == 0,
 			chaos:      g.r.Intn(2) == 0,
+			ecs:        g.pick(0, 0, 1, 2),
 			tcp:        g.r.Intn(3) == 0,
 			inline:     g.r.Intn(3) == 0,
 		}
@@ -1480,6 +1629,7 @@ func TestVerifC05Differential(t *testing.T) {
 		if g.r.Intn(4) == 0 {
 			tg.entryRate = g.pick(1, 1, 2, 3)
 		}
+		g.ecsBias = tg.ecs > 0
 		// history: a handful of names queried repeatedly so that cache states are reached
 		nsteps := 24 + g.r.Intn(16)
 		if nsteps > budget {
@@ -1494,7 +1644,11 @@ func TestVerifC05Differential(t *testing.T) {
 		for i := 0; i < 2+g.r.Intn(2); i++ {
 			focus = append(focus, families[g.r.Intn(len(families))]...)
 		}
-		ips := []net.IP{net.IPv4(203, 0, 113, 30), net.IPv4(203, 0, 113, 31)}
+		// two clients per history; the transport may report an IPv4 client in 4-byte or in 16-byte
+		// (IPv4-mapped) form, or the client is IPv6; inside / outside the ECS allow-list
+		ipPool := []net.IP{net.IPv4(203, 0, 113, 30), net.IPv4(203, 0, 113, 31).To4(), net.IPv4(203, 0, 113, 99), net.IPv4(198, 51, 100, 7).To4(),
+			net.ParseIP("2001:db8:c05::30"), net.ParseIP("2001:db8:ffff::1")}
+		ips := []net.IP{ipPool[g.r.Intn(len(ipPool))], ipPool[g.r.Intn(len(ipPool))]}
 		var steps []vC05Step
 		for i := 0; i < nsteps; i++ {
 			if i > 2 {
